@@ -28,6 +28,15 @@ type Replay struct {
 	Nondets []NondetVal `json:"nondets"`
 }
 
+var tvSeed uint64
+
+func splitmix(x uint64) uint64 {
+	x += 0x9e3779b97f4a7c15
+	x = (x ^ (x >> 30)) * 0xbf58476d1ce4e5b9
+	x = (x ^ (x >> 27)) * 0x94d049bb133111eb
+	return x ^ (x >> 31)
+}
+
 var (
 	rec       []NondetVal
 	pos       int
@@ -42,6 +51,10 @@ func load() {
 		return
 	}
 	loaded = true
+	if s := os.Getenv("VERIF_TV_SEED"); s != "" {
+		fmt.Sscan(s, &tvSeed)
+		return
+	}
 	f := os.Getenv("VERIF_REPLAY")
 	if f == "" {
 		return
@@ -58,10 +71,18 @@ func load() {
 }
 
 // Reset restarts consumption of the recorded values (used between harness runs).
-func Reset() { load(); pos = 0; Failures = nil; Reached = map[string]bool{} }
+func Reset() { load(); pos = 0; Failures = nil; Observed = nil; Reached = map[string]bool{} }
 
 func next(name, kind string) uint64 {
 	load()
+	if tvSeed != 0 {
+		v := splitmix(tvSeed + uint64(pos)*0x100000001b3)
+		pos++
+		if v%4 == 0 {
+			v = v >> 8 % 3
+		}
+		return v
+	}
 	if pos >= len(rec) {
 		// beyond the recorded path: unconstrained values default to zero
 		return 0
@@ -95,7 +116,12 @@ func String(name string, n int) string {
 	return string(Bytes(name, n))
 }
 
-func Choice(name string, n int) int { return int(next(name, "choice")) }
+func Choice(name string, n int) int {
+	if tvSeed != 0 {
+		return int(next(name, "choice") % uint64(n))
+	}
+	return int(next(name, "choice"))
+}
 
 type assumeFailed struct{}
 
@@ -154,6 +180,11 @@ func ResetAllocBytes()                          {}
 func Steps() uint64                             { return 0 }
 func PoolPolicy(s string)                       {}
 func Note(s string)                             {}
+func Phase(s string)                            {}
+
+var Observed []string
+
+func Observe(name string, b []byte) { Observed = append(Observed, fmt.Sprintf("%s=%x", name, b)) }
 func MutexHeld(p unsafe.Pointer) bool           { return true }
 func HavocBytes(name string, p unsafe.Pointer, n int) {
 	b := unsafe.Slice((*byte)(p), n)
